@@ -958,6 +958,63 @@ pub fn clones<const N: usize>(w: &mut impl std::io::Write) -> usize {
     n
 }
 
+
+/// the same calls made while the thread is UNWINDING (from a `Drop` impl that runs because of a panic, as a connection
+/// guard would): `std::thread::panicking()` is true there.  Only calls that do not panic themselves (a second panic
+/// would abort the process).  Ordinary `T1` lines: the model knows no such thing as an unwinding thread.
+pub fn unwinding<const N: usize>(w: &mut impl std::io::Write) -> usize {
+    struct Guard<F: FnMut()>(F);
+    impl<F: FnMut()> Drop for Guard<F> {
+        fn drop(&mut self) {
+            (self.0)()
+        }
+    }
+    let mut n = 0;
+    let mut lines: Vec<u8> = vec![];
+    for wi in 0..=N {
+        for ri in 0..=wi {
+            if ri == wi && ri > 0 {
+                continue;
+            }
+            let mut a = [0u8; N];
+            for (i, x) in a.iter_mut().enumerate() {
+                *x = if i % 3 == 2 { b'\n' } else { b'a' + i as u8 };
+            }
+            let mut b = FixedBuf::empty(a);
+            b.wrote(wi);
+            if ri > 0 {
+                b.read_bytes(ri);
+            }
+            let s = match observe(&b) {
+                Some(s) => s,
+                None => continue,
+            };
+            let len = wi - ri;
+            let free = N - wi;
+            let ops = vec![
+                Op::Shift, Op::Clear, Op::ReadAll, Op::TryReadByte, Op::TryReadBytes(len), Op::TryReadBytes(len + 1), Op::ReadBytes(len / 2), Op::IoRead(3), Op::ReadAndCopy(2), Op::TryReadExact(1),
+                Op::WriteBytes(vec![b'z'; free.min(2)]), Op::WriteBytes(vec![b'z'; free + 1]), Op::IoWrite(vec![b'y'; free]), Op::PokeWrote(vec![b'p'], free.min(1)),
+                Op::CopyOnce(Resp::Data(vec![b'k', b'\n', b'm'], false)), Op::CopyOnce(Resp::Err(5)),
+                Op::TryParse(vec![ROp::TryReadByte, ROp::ReadAll], false), Op::TryParse(vec![ROp::ReadAll], false), Op::TryParse(vec![ROp::TryReadBytes(1)], true),
+                Op::Deframe(Df::Line), Op::Deframe(Df::Crlf), Op::Deframe(Df::Null),
+            ];
+            for op in ops {
+                let r = catch_unwind(AssertUnwindSafe(|| {
+                    let _g = Guard(|| {
+                        // we are in a destructor that runs during unwinding
+                        transition(&b, &s, &op, &mut lines);
+                    });
+                    panic!("unwinding context");
+                }));
+                let _ = r;
+                n += 1;
+            }
+        }
+    }
+    w.write_all(&lines).unwrap();
+    n
+}
+
 /// long runs of the same few calls on ONE value (call counters that wrap, amortised work every so many calls)
 pub fn repeat<const N: usize>(w: &mut impl std::io::Write) -> usize {
     let patterns: Vec<Vec<Op>> = vec![
